@@ -46,9 +46,22 @@ class DynamicSGEDecider(SynthesisDecider):
         self.max_string_length = max_string_length
         self.validate()
 
+    def symbol_key(self, ty):
+        """The key `ty` has in the genotype. A type that mentions refinement objects (a Union with a refined alternative, say) is a
+        new, unequal object every time the annotations are read again -- which is every time under `from __future__ import
+        annotations` -- although it is the same symbol: it then goes by the key that prints the same."""
+        if ty in self.genotype.dna or ty in self.positions:
+            return ty
+        printed = str(ty)
+        for known in self.genotype.dna:
+            if str(known) == printed:
+                return known
+        return ty
+
     def read(self, ty):
         # symbols that are not grammar nodes (Union types, base types used for list lengths)
         # have gene lists too
+        ty = self.symbol_key(ty)
         position = self.positions.get(ty, 0)
         v = self.genotype.get(ty, position)
         self.positions[ty] = position + 1
